@@ -24,6 +24,7 @@ import (
 	"github.com/q191201771/lal/pkg/mpegts"
 	"github.com/q191201771/naza/pkg/filesystemlayer"
 	"github.com/q191201771/naza/pkg/mock"
+	"github.com/q191201771/naza/pkg/nazalog"
 
 	"lalverif/proj"
 )
@@ -269,6 +270,9 @@ func hlsDriver(env *Env) error {
 		return err
 	}
 	defer tw.Close()
+	if lg, err := nazalog.New(func(o *nazalog.Option) { o.Level = nazalog.LevelLogNothing }); err == nil {
+		hls.Log = lg
+	}
 	clock := mock.NewFakeClock()
 	hls.Clock = clock
 	patpmt := append(append([]byte{}, mpegts.PackPat()...), mpegts.PackPmt(int(base.RtmpCodecIdAvc), int(base.RtmpSoundFormatAac))...)
